@@ -20,7 +20,7 @@ ID = "C11"
 TECHNIQUE = "bounded-exhaustive grid enumeration of degenerate symmetric inputs on the real eigen-based matrix_inverse_root; structural invariants (finite, symmetric, PD, eigenvalue cap, commutation, orthogonal equivariance) + must-raise enumeration of all small non-square/non-2D shapes"
 RULE = (
     "n in {1,2,3,4,8,16[,64 thorough]} x spectra {zero, rankdef, neg(-1e-3), neg(-1e-6), neg(-1e-9), all-negative-tiny} x bases x scale {1e-4,1,1e4} x eps (3 values per dtype, never below the dtype "
-    "resolution of the scale) x roots {1,2,4,3/2,1/2,2/3,1001/997,317/211} x dtype {f32,f64} x {plain, enhance_stability, config carrying exponent_multiplier 1.82}; equivariance under 6 orthogonal P per case; must-raise: all shapes (k,),(a,b) a!=b,(a,b,c) with entries <= 4 and numel > 1. "
+    "resolution of the scale) x roots {1,2,4,3/2,1/2,2/3,1001/997,317/211} x dtype {f32,f64} x {plain, enhance_stability, config carrying exponent_multiplier 1.82, eigen_decomp_offload_device cpu with and without enhance_stability}; equivariance under 6 orthogonal P per case; must-raise: all shapes (k,),(a,b) a!=b,(a,b,c) with entries <= 4 and numel > 1. "
     "state = the input tuple; non-trivial = input with a zero or negative eigenvalue"
 )
 ASSUMPTIONS = ["grid only", "c = 64 in all rounding bounds; strict positive definiteness is required where kappa^(1/r) * n * u * c < 1, otherwise positive semi-definiteness up to rounding"]
@@ -97,11 +97,13 @@ def check_input(torch, c, stats):
     for r in ROOTS:
         # third variant: a config carrying exponent_multiplier - the caller folds the multiplier into `root`, the routine
         # itself must compute the root it was given
-        for stab, mult in ((False, 1.0), (True, 1.0), (False, 1.82)):
+        for stab, mult, off in ((False, 1.0, ""), (True, 1.0, ""), (False, 1.82, ""), (False, 1.0, "cpu"), (True, 1.0, "cpu")):
             case = dict(c, root=[r.numerator, r.denominator], stab=stab)
             if mult != 1.0:
                 case["mult"] = mult
-            cfgobj = EigenConfig(enhance_stability=stab, exponent_multiplier=mult)
+            if off:
+                case["offload"] = off
+            cfgobj = EigenConfig(enhance_stability=stab, exponent_multiplier=mult, eigen_decomp_offload_device=off)
             A_in = A.clone()
             try:
                 X = mf.matrix_inverse_root(A, root=r, root_inv_config=cfgobj, epsilon=eps)
@@ -138,8 +140,9 @@ def check_input(torch, c, stats):
             stats["max_comm_over_nu"] = max(stats.get("max_comm_over_nu", 0.0), comm / (n * u))
             if not comm <= CC * n * u:
                 out.append((case, f"result does not commute with the input: |AX - XA|/(|A||X|) = {comm:.2e}"))
-            if not stab and mult == 1.0:
-                for pi, P in enumerate(Ps):
+            if mult == 1.0:
+                # all six rotations for the default config, two for the others
+                for pi, P in enumerate(Ps if (not stab and not off) else Ps[:2]):
                     B64 = P @ An @ P.T
                     B = torch.tensor((B64 + B64.T) / 2, dtype=dt)
                     try:
@@ -223,6 +226,6 @@ def replay(case):
     if case.get("mustraise"):
         bad, _ = check_mustraise(torch)
         return [m for c, m in bad if c["shape"] == case["shape"] and c["cfg"] == case["cfg"] and c["diag"] == case["diag"]]
-    c = {k: v for k, v in case.items() if k not in ("root", "stab", "P", "mult")}
+    c = {k: v for k, v in case.items() if k not in ("root", "stab", "P", "mult", "offload")}
     bad = check_input(torch, c, {})
-    return [m for cs, m in bad if cs.get("root") == case["root"] and cs.get("stab") == case["stab"] and cs.get("P") == case.get("P") and cs.get("mult") == case.get("mult")]
+    return [m for cs, m in bad if all(cs.get(k) == case.get(k) for k in ("root", "stab", "P", "mult", "offload"))]
